@@ -7,9 +7,162 @@
 //! finish — and which runnable thread continues is decided by the simulator's
 //! chooser (stream S). Real threads, simulated schedule: replays exactly.
 
-use std::cell::RefCell;
+//!
+//! Allocation points (optional, per section): the process's global allocator
+//! reports every allocation made by a worker while it runs code of the system
+//! under simulation; at allocation ordinals drawn by the simulator the worker
+//! is preempted there. This reaches interleavings *inside* a closure between
+//! accesses to shared state the seam does not own (atomics, a mutex named by
+//! its full path), without any hook in the code: whatever allocates between
+//! two such accesses can be split there.
+//!
+//! A worker preempted at an allocation may hold a lock the simulator knows
+//! nothing about; a thread that then blocks on that lock keeps the baton and
+//! the section stalls. A waiting thread that sees no scheduling event for
+//! `STALL` declares the section *broken*: every thread free-runs from then on
+//! and the harness discards the run (it is neither a pass nor a violation).
+//! On code that shares state only through the seam this never happens.
+
+use std::cell::{Cell, RefCell};
 use std::collections::BTreeMap;
-use std::sync::{Arc, Condvar, Mutex};
+use std::sync::atomic::{AtomicBool, AtomicU64, Ordering};
+use std::sync::{Arc, Condvar, Mutex, MutexGuard};
+use std::time::Duration;
+
+/// A waiting thread looks every `POLL` at the thread that holds the baton: if no scheduling event
+/// happened meanwhile and the kernel reports it asleep (blocked on a lock of its own) `SLEEPY`
+/// times in a row, or nothing at all happened for `STALL`, the section is broken.
+const POLL: Duration = Duration::from_millis(20);
+const SLEEPY: u32 = 5;
+const STALL: Duration = Duration::from_secs(10);
+
+/// Kernel thread id of the caller (Linux: `/proc/thread-self` → `<pid>/task/<tid>`).
+fn own_tid() -> u64 {
+    std::fs::read_link("/proc/thread-self")
+        .ok()
+        .and_then(|p| p.file_name().and_then(|f| f.to_str()).and_then(|f| f.parse().ok()))
+        .unwrap_or(0)
+}
+/// Is that thread asleep (state `S`)? A worker that runs parsing code never sleeps unless it waits for a lock.
+fn asleep(tid: u64) -> bool {
+    if tid == 0 {
+        return false;
+    }
+    match std::fs::read_to_string(format!("/proc/self/task/{tid}/stat")) {
+        // "<tid> (<comm>) <state> ...": the state follows the last ')'
+        Ok(s) => s.rsplit(')').next().map(|r| r.trim_start().starts_with('S')).unwrap_or(false),
+        Err(_) => false,
+    }
+}
+static BROKEN_SEEN: AtomicBool = AtomicBool::new(false);
+static PREEMPTIONS: AtomicU64 = AtomicU64::new(0);
+
+/// True if a section was declared broken since the last call (the caller discards the run).
+pub fn take_broken() -> bool {
+    BROKEN_SEEN.swap(false, Ordering::SeqCst)
+}
+/// Number of preemptions at allocation points since the last call.
+pub fn take_preemptions() -> u64 {
+    PREEMPTIONS.swap(0, Ordering::SeqCst)
+}
+
+#[derive(Clone, Copy)]
+struct Pre {
+    /// the worker is inside code of the system under simulation
+    active: bool,
+    /// > 0 while scheduler / harness code runs on this thread
+    suspended: u32,
+    count: u64,
+    next: u64,
+    budget: u32,
+}
+thread_local! {
+    static PRE: Cell<Pre> = const { Cell::new(Pre { active: false, suspended: 0, count: 0, next: u64::MAX, budget: 0 }) };
+}
+
+/// No preemption at allocation points while one of these is alive on the thread.
+pub struct Suspend(());
+impl Suspend {
+    pub fn new() -> Suspend {
+        let _ = PRE.try_with(|c| {
+            let mut p = c.get();
+            p.suspended += 1;
+            c.set(p);
+        });
+        Suspend(())
+    }
+}
+impl Default for Suspend {
+    fn default() -> Self {
+        Suspend::new()
+    }
+}
+impl Drop for Suspend {
+    fn drop(&mut self) {
+        let _ = PRE.try_with(|c| {
+            let mut p = c.get();
+            p.suspended = p.suspended.saturating_sub(1);
+            c.set(p);
+        });
+    }
+}
+
+/// Marks the stretch in which a worker runs code of the system under simulation.
+pub struct Active(());
+impl Active {
+    pub fn new() -> Active {
+        let _ = PRE.try_with(|c| {
+            let mut p = c.get();
+            p.active = true;
+            c.set(p);
+        });
+        Active(())
+    }
+}
+impl Default for Active {
+    fn default() -> Self {
+        Active::new()
+    }
+}
+impl Drop for Active {
+    fn drop(&mut self) {
+        let _ = PRE.try_with(|c| {
+            let mut p = c.get();
+            p.active = false;
+            c.set(p);
+        });
+    }
+}
+
+/// Called by the global allocator for every allocation of the process.
+#[inline]
+pub fn alloc_point() {
+    let _ = PRE.try_with(|c| {
+        let mut p = c.get();
+        if !p.active || p.suspended > 0 {
+            return;
+        }
+        p.count += 1;
+        if p.count < p.next {
+            c.set(p);
+            return;
+        }
+        p.suspended += 1;
+        c.set(p);
+        if !std::thread::panicking() {
+            if let Some((s, me)) = try_current() {
+                PREEMPTIONS.fetch_add(1, Ordering::Relaxed);
+                s.yield_point(me, "alloc");
+                p.budget = p.budget.saturating_sub(1);
+                p.next = if p.budget == 0 { u64::MAX } else { p.count + 1 + s.draw_gap() };
+            } else {
+                p.next = u64::MAX;
+            }
+        }
+        p.suspended -= 1;
+        c.set(p);
+    });
+}
 
 /// Picks one of `n` alternatives at a yield point of the given kind.
 pub type Chooser = Arc<Mutex<dyn FnMut(usize, &'static str) -> usize + Send>>;
@@ -28,6 +181,12 @@ struct St {
     owner: BTreeMap<usize, usize>,
     switches: u64,
     yields: u64,
+    /// some worker of this section has a preemption budget: waits use a time-out
+    preempting: bool,
+    /// kernel thread ids of the workers (0 = unknown)
+    tids: Vec<u64>,
+    /// the section stalled on a lock the simulator does not own: everybody free-runs
+    broken: bool,
 }
 
 pub struct Sched {
@@ -44,7 +203,7 @@ thread_local! {
 impl Sched {
     pub fn new(threads: usize, chooser: Chooser) -> Arc<Sched> {
         Arc::new(Sched {
-            st: Mutex::new(St { state: vec![TState::Ready; threads], current: None, owner: BTreeMap::new(), switches: 0, yields: 0 }),
+            st: Mutex::new(St { state: vec![TState::Ready; threads], current: None, owner: BTreeMap::new(), switches: 0, yields: 0, preempting: false, tids: vec![0; threads], broken: false }),
             cvs: (0..threads).map(|_| Condvar::new()).collect(),
             chooser,
         })
@@ -54,6 +213,7 @@ impl Sched {
         if n <= 1 {
             return 0;
         }
+        let _s = Suspend::new();
         let mut c = self.chooser.lock().unwrap_or_else(|e| e.into_inner());
         (c)(n, kind) % n
     }
@@ -73,15 +233,76 @@ impl Sched {
 
     /// Worker entry: register on this thread and wait for the baton.
     pub fn enter(self: &Arc<Self>, me: usize) {
+        let _s = Suspend::new();
         CUR.with(|c| *c.borrow_mut() = Some((self.clone(), me)));
-        let mut st = self.st.lock().unwrap();
-        while st.current != Some(me) {
-            st = self.cvs[me].wait(st).unwrap();
+        let st = self.st.lock().unwrap();
+        let mut st = self.wait_for_baton(st, me);
+        // the worker's preemption plan: how many allocation points, and the first of them
+        let budget = self.choose(4, "alloc-preempt-budget") as u32;
+        st.tids[me] = own_tid();
+        if budget > 0 {
+            st.preempting = true;
+        }
+        drop(st);
+        let next = if budget == 0 { u64::MAX } else { 1 + self.draw_gap() };
+        let _ = PRE.try_with(|c| {
+            let mut p = c.get();
+            p.count = 0;
+            p.budget = budget;
+            p.next = next;
+            c.set(p);
+        });
+    }
+
+    /// Distance (in allocations of this worker) to its next preemption.
+    fn draw_gap(&self) -> u64 {
+        let scale = [4usize, 32, 256, 2048][self.choose(4, "alloc-gap-scale")];
+        self.choose(scale, "alloc-gap") as u64
+    }
+
+    /// Parks the caller until it holds the baton (or the section is broken).
+    fn wait_for_baton<'a>(&'a self, mut st: MutexGuard<'a, St>, me: usize) -> MutexGuard<'a, St> {
+        loop {
+            if st.broken || st.current == Some(me) {
+                return st;
+            }
+            if st.preempting {
+                let (seen, began) = (st.yields, std::time::Instant::now());
+                let mut sleepy = 0;
+                loop {
+                    let (g, to) = self.cvs[me].wait_timeout(st, POLL).unwrap();
+                    st = g;
+                    if st.broken || st.current == Some(me) {
+                        return st;
+                    }
+                    if !to.timed_out() {
+                        continue;
+                    }
+                    if st.yields != seen {
+                        break; // the section moves on: start over
+                    }
+                    let holder = st.current.map(|h| st.tids[h]).unwrap_or(0);
+                    sleepy = if asleep(holder) { sleepy + 1 } else { 0 };
+                    if sleepy >= SLEEPY || began.elapsed() >= STALL {
+                        st.broken = true;
+                        BROKEN_SEEN.store(true, Ordering::SeqCst);
+                        for cv in &self.cvs {
+                            cv.notify_all();
+                        }
+                        return st;
+                    }
+                }
+            } else {
+                st = self.cvs[me].wait(st).unwrap();
+            }
         }
     }
 
     /// Hand the baton to one of the runnable threads (possibly the caller itself).
-    fn reschedule(&self, mut st: std::sync::MutexGuard<'_, St>, me: usize, kind: &'static str) {
+    fn reschedule<'a>(&'a self, mut st: MutexGuard<'a, St>, me: usize, kind: &'static str) {
+        if st.broken {
+            return;
+        }
         st.yields += 1;
         let runnable: Vec<usize> = (0..st.state.len()).filter(|&i| matches!(st.state[i], TState::Ready | TState::Running)).collect();
         if runnable.is_empty() {
@@ -106,23 +327,26 @@ impl Sched {
             if matches!(st.state[me], TState::Done) {
                 return;
             }
-            while st.current != Some(me) {
-                st = self.cvs[me].wait(st).unwrap();
-            }
+            st = self.wait_for_baton(st, me);
             st.state[me] = TState::Running;
         }
     }
 
     pub fn yield_point(&self, me: usize, kind: &'static str) {
+        let _s = Suspend::new();
         let st = self.st.lock().unwrap();
         self.reschedule(st, me, kind);
     }
 
     /// Simulated acquisition of the mutex identified by `id`.
     pub fn acquire(&self, me: usize, id: usize) {
+        let _s = Suspend::new();
         self.yield_point(me, "lock");
         loop {
             let mut st = self.st.lock().unwrap();
+            if st.broken {
+                return; // the real mutex underneath decides from here on
+            }
             match st.owner.get(&id) {
                 None => {
                     st.owner.insert(id, me);
@@ -139,8 +363,12 @@ impl Sched {
     }
 
     pub fn try_acquire(&self, me: usize, id: usize) -> bool {
+        let _s = Suspend::new();
         self.yield_point(me, "try-lock");
         let mut st = self.st.lock().unwrap();
+        if st.broken {
+            return true;
+        }
         if st.owner.contains_key(&id) {
             false
         } else {
@@ -150,6 +378,7 @@ impl Sched {
     }
 
     pub fn release(&self, me: usize, id: usize) {
+        let _s = Suspend::new();
         {
             let mut st = self.st.lock().unwrap();
             st.owner.remove(&id);
@@ -167,6 +396,14 @@ impl Sched {
 
     /// Worker exit (normal or by panic): give the baton away for good.
     pub fn finish(&self, me: usize) {
+        let _s = Suspend::new();
+        let _ = PRE.try_with(|c| {
+            let mut p = c.get();
+            p.active = false;
+            p.next = u64::MAX;
+            p.budget = 0;
+            c.set(p);
+        });
         CUR.with(|c| *c.borrow_mut() = None);
         let mut st = self.st.lock().unwrap();
         st.state[me] = TState::Done;
@@ -192,6 +429,9 @@ impl Sched {
 /// The scheduler and thread id of the calling thread, if it is a Mode T worker.
 pub fn current() -> Option<(Arc<Sched>, usize)> {
     CUR.with(|c| c.borrow().clone())
+}
+fn try_current() -> Option<(Arc<Sched>, usize)> {
+    CUR.try_with(|c| c.try_borrow().ok().and_then(|b| b.clone())).ok().flatten()
 }
 
 /// Yield point usable from anywhere in code running under Mode T (no-op otherwise).
